@@ -69,6 +69,27 @@ def build_repo_bins():
         log(p.stdout[-4000:])
         raise ToolError("repository build failed")
 
+CLI_SHIM = "/usr/sbin/cli"
+CLI_SHIM_TEXT = """#!/bin/sh
+# bgpfu-rs verification shim (installed by /verif/bin/setup): stands in for the Junos `cli` binary that
+# bgpfu-netconf's local transport spawns.  Outside a verification run it behaves like a missing command.
+[ -n "$BGPFU_VERIF_CLI" ] || { echo "cli: command not found" >&2; exit 127; }
+exec $BGPFU_VERIF_CLI
+"""
+
+def ensure_cli_shim():
+    """The agent's `local` target and Session::junos_local() spawn the fixed path /usr/sbin/cli.  Install a shim there
+    (only if nothing else owns the path) so that the real spawn code is exercised; returns whether it is in place."""
+    try:
+        if os.path.exists(CLI_SHIM):
+            return "bgpfu-rs verification shim" in open(CLI_SHIM, errors="replace").read(400)
+        with open(CLI_SHIM, "w") as f:
+            f.write(CLI_SHIM_TEXT)
+        os.chmod(CLI_SHIM, 0o755)
+        return True
+    except OSError:
+        return False
+
 # ----------------------------------------------------------------------------------------
 # TLC
 
